@@ -160,6 +160,27 @@ theorem warmRun_post (env : RunEnv) (hs : C14.Sane env) (nsteps : Nat) (parts : 
 theorem coldRunPost_records_eq (env : RunEnv) (hs : C14.Sane env) (nsteps : Nat) :
     (coldRunPost env nsteps).records = (env.coldRun nsteps).records := (coldRun_post env hs nsteps).1
 
+/-- and the states the two loops end in hold the same living particles (what the next record,
+    the next warm start or a caller of `Model.update` gets to see) -/
+theorem coldRun_post_living (env : RunEnv) (hs : C14.Sane env) (nsteps : Nat) :
+    (coldRunPost env nsteps).parts.filter (·.alive) = (env.coldRun nsteps).parts.filter (·.alive) := by
+  unfold coldRunPost RunEnv.coldRun
+  cases hsp : env.sparse
+  · rw [updatesPost_dense env hsp]
+  · exact (updates_post_rel env hs hsp nsteps 0 _ _ (Rel.refl RunEnv.empty)).parts
+
+/-- the program's order never carries a dead particle over a step boundary in the sparse layout
+    unless the tracker or the IBM of that very step killed it: what enters `tracker.update` is alive -/
+theorem post_forced_alive (env : RunEnv) (hs : C14.Sane env) (hsp : env.sparse = true) (n : Int)
+    (s : RState) :
+    ∀ p ∈ ((if env.sparse then (s.parts ++ assignPids s.npid (env.release n)).filter (·.alive)
+            else s.parts ++ assignPids s.npid (env.release n)).map (env.force n)), p.alive = true := by
+  intro p hp
+  rw [hsp] at hp
+  simp only [if_true, List.mem_map, List.mem_filter] at hp
+  obtain ⟨q, ⟨_, hq⟩, rfl⟩ := hp
+  rw [hs.force_alive]; exact hq
+
 /-- the refinement theorem of C14 holds for the loop in the program's present order:
     every due record of a cold run is the per-particle specification, and nothing else is written -/
 theorem post_refines_spec (env : RunEnv) (hs : C14.Sane env) (hsp : env.sparse = true) (N n : Nat)
